@@ -315,7 +315,12 @@ class Check(PropertyCheck):
         'translator harness/gen/gen_c04_code.py (fail-closed; bodies of Documentable.expandName, Module/Class._localNameToFullName, '
         'Class.find -> Gen/NamesCode.v) and the interpreter Model/NamesIR.v; primitives assumed as documented there: dict lookups on '
         'contents/_localNameToFullName_map, fullName(), parent, objForFullName, isinstance(x, Class), truthiness of a Documentable, '
-        'mro() = the single-inheritance base chain; Inheritable._localNameToFullName (Function objects), resolveName and '
+        'mro() = the single-inheritance base chain; normalisations done by the translator with the meaning stated in the Model/NamesIR.v '
+        'header: d.get(k, default) = d[k] if k in d else default, a local bound to self.contents / self._localNameToFullName_map is '
+        'that dict, next(<generator pipeline over mro()>, default) = the for loop with an early return, a module-level helper called '
+        'from a translated body is translated too and run on a fresh frame (SCall), [a, *l] = [a] + l; expandName is proved through '
+        'one of four loop shapes (Proofs/NamesIRProofs.v), any other shape fails the build; '
+        'Inheritable._localNameToFullName (Function objects), resolveName and '
         'objForFullName are pinned by the translator, not translated',
         'Spec/PyImport.v is a hand-written final-state semantics of CPython binding; validated against CPython on every run',
         'modelled not verified: at most one base per class (C3 is C05), no duplicate definitions, CPython ast parsing',
